@@ -517,7 +517,7 @@ func rulePageRange(c *eng.Ctx) {
 			u, ok := v.(*ssa.UnOp)
 			return ok && u.Op == token.MUL
 		}
-		lower := eng.GuardedBy(fn, blk, func(f eng.Fact) bool {
+		lowerPred := func(f eng.Fact) bool {
 			op, x, y, ok := f.Cmp()
 			if !ok {
 				return false
@@ -529,14 +529,17 @@ func rulePageRange(c *eng.Ctx) {
 				return true
 			}
 			return false
-		})
-		upper := eng.GuardedBy(fn, blk, func(f eng.Fact) bool {
+		}
+		// the bounds may also have been established for every requested number by a validation pass of its own
+		lower := eng.GuardedBy(fn, blk, lowerPred) || validatedByEarlierPass(fn, blk, "pages", lowerPred)
+		upperPred := func(f eng.Fact) bool {
 			op, x, y, ok := f.Cmp()
 			if !ok {
 				return false
 			}
 			return (isP(x) && y == pageCount && op == token.LEQ) || (isP(y) && x == pageCount && op == token.GEQ)
-		})
+		}
+		upper := eng.GuardedBy(fn, blk, upperPred) || validatedByEarlierPass(fn, blk, "pages", upperPred)
 		seen := eng.GuardedBy(fn, blk, func(f eng.Fact) bool {
 			// !seen[k]: negative fact on a map lookup (plain or comma-ok)
 			if f.Pos {
